@@ -185,7 +185,9 @@ func textPerturb(s string, r *hx.Rng) string {
 }
 
 func genText(c *hx.Ctx) {
-	r := c.Rng
+	// Fork: hx.NewRng(seed) of consecutive seeds yields the same SplitMix64 sequence shifted by one draw,
+	// and the generators re-synchronise after a few draws; the forked generator starts from a mixed state.
+	r := c.Rng.Fork()
 	random := 6
 	nstr := 40
 	if c.Thorough() {
